@@ -125,6 +125,8 @@ class Program(object):
             except SyntaxError as e:
                 raise AnalysisError("parse:" + rel, str(e))
             self.modules[modname] = m
+        from . import normal
+        self.dead_bookkeeping = normal.drop_dead_bookkeeping(dict((k, m.tree) for k, m in self.modules.items()))
         for m in self.modules.values():
             for st in ast.walk(m.tree):
                 if isinstance(st, ast.ClassDef):
